@@ -128,7 +128,7 @@ fn attempt(w: &mut ItsWorld, a: &Attempt, rollback: bool) -> Result<CallOut<()>,
 }
 
 pub fn run(ctx: &Ctx, rep: &mut Report) {
-    let total = ctx.universes(120, 5000);
+    let total = ctx.universes(640, 30000);
     for uni in ctx.my_universes(total) {
         let mut rng = ctx.rng_for(uni);
         rep.begin_universe(uni);
